@@ -26,6 +26,9 @@ def make_resolver(tn, fd, wrap=None):
     def resolver(root, ctx, info, **args):
         path = list(info.path)
         ctx.calls.append((tuple(path), tn, fd["name"], RX.canon(args)))
+        tl = getattr(ctx, "timeline", None)
+        if tl is not None:
+            tl.append(("call", tuple(path)))
         if tuple(path) in ctx.boom_paths:
             raise RX.Boom(tuple(path))
         b = ctx.behaviour(tn, fd, path, args)
